@@ -1,8 +1,8 @@
 SPECIFICATION Spec
 CONSTANTS
-  Docs <- OneNotation
+  Docs <- HeadingDocs
   K = 2
-  MaxPS = 1
-  Dev = {"SplitAtAnySymbol"}
+  MaxPS = 4
+  Dev = {}
 INVARIANTS SplitAgreement ParseAgreement
 CHECK_DEADLOCK FALSE
